@@ -5,4 +5,5 @@ HERE=$(cd "$(dirname "$0")/.." && pwd)
 for t in "$HERE"/tools/translate/*.py; do python3 "$t" >/dev/null || { echo "translator $t failed"; exit 1; }; done
 cd "$HERE/lean" && lake build 2>&1 | tail -3
 "$HERE/tools/build_pika.sh" hooks
+"$HERE/tools/build_pika.sh" mpi
 echo setup ok
